@@ -23,6 +23,7 @@ var kinds = map[string]kind{
 	"cmt":  {genCmt, runCmt},
 	"txn":  {genTxn, runTxn},
 	"eos":  {genEos, runEos},
+	"conn": {genConn, runConn},
 }
 
 func TestMain(m *testing.M) {
